@@ -69,6 +69,8 @@ func LoadFilter(filter Filter) error {
 			return fmt.Errorf("failed to set no_new_privs with prctl: %w", err)
 		}
 	}
+	verifPoint("post-prctl")
+	verifInstall(seccompSetModeFilter, filter.Flag, sockFilter)
 
 	if err = seccomp(seccompSetModeFilter, filter.Flag, unsafe.Pointer(program)); err != nil {
 		if err == syscall.ENOSYS {
